@@ -409,7 +409,9 @@ def stepAt (s : State) (t : Nat) (x : Thr) : PC → Act → Except String State
   | .addL0 u, .lockL =>
       if s.lockL = none then .ok ({ s with lockL := some t }.setPc t (.addL1 u)) else .error "addL0/lockL: L is held"
   | .addL1 u, .storeI v wr =>
-      if v = u ∧ wr = s.list.length then
+      -- (`s.pcOf u = embryo` is a guard of the model, not an assertion of the code: `add_thread` is handed a
+      -- thread that is not registered yet)
+      if v = u ∧ wr = s.list.length ∧ s.pcOf u = some .embryo then
         .ok ((({ s with list := s.list ++ [u] }.setIdx u wr).setPc u .ready).setPc t (.addL2 u))
       else .error "addL1/storeI: not set_index_in_thread_list(len) of the new thread"
   | .addL2 u, .unlockL => .ok ({ s with lockL := none }.setPc t (.unp0 (.scope (.add u))))
